@@ -871,6 +871,9 @@ func genTokenPlan(r *rand.Rand, tier, focus string) *vfPlan {
 					add(vfStep{Op: "advance", D: pick(r, []string{"1s", "3s", "4m59s", "5m1s"})})
 				}
 				add(vfStep{Op: "oidc_token", A: "last:code", B: by, L: tl})
+			} else if focus == "C12" && (cl == "clientB" || cl == "clientD") && m != "S256" && m != "plain" && chance(r, 0.6) {
+				// a secret-less client whose authorization carried no usable challenge: whatever verifier it invents, nothing proves it is the client
+				add(vfStep{Op: "oidc_token", A: "last:code", B: cl, L: []string{"secret:absent", "verifier:" + pick(r, []string{"wrong", "wrong", "challenge"}), "redirect:same", "auth:" + pick(r, []string{"header", "form", "header-empty"})}})
 			}
 		case x < 45:
 			cl := pick(r, clients)
